@@ -9,6 +9,8 @@ Decided on every CFG path of every SmallBufferAllocator<N> instantiation (N = 4.
   C41.tl-bounds    the thread-local cache index stays inside tlBuffers[kMaxNumTLBuffers]: alloc()
                    refills when the count is zero before it pre-decrements; dealloc() recycles as soon
                    as the post-incremented count reaches kMaxNumTLBuffers.
+  C41.refill-count grabFromCentralStore returns exactly the number of cache slots it filled (the bulk
+                   dequeue result, or K after a loop that writes buffers[0..K)).
   C41.cleanup      the per-thread queuing data's destructor returns the cached blocks to the central
                    store.
 """
@@ -82,3 +84,47 @@ def run(R):
         ok = bool(calls) and any(any(nn.get("k") == "member" and nn.get("fname") == "buffers_" for nn in subexprs(e)) and any(nn.get("k") == "member" and nn.get("fname") == "count_" for nn in subexprs(e)) for _, e in calls)
         R.ob("C41.cleanup", fn, fn.loc, ok, "thread exit returns buffers_[0..count_) to the central store" if ok else "cached blocks are lost at thread exit", sitekey="thread-exit", why="blocks cached by an exiting thread must stay available")
     R.need("C41.cleanup", nc, 1, "PerThreadQueuingData destructor")
+
+    # ---- refill count ------------------------------------------------------------------------------------
+    # alloc() hands out tlBuffers[--tlCount] for tlCount = grabFromCentralStore(tlBuffers): every slot
+    # below the returned count must have been written by this call, or a stale pointer to a block that
+    # is still live is handed out a second time.
+    from lib.rules import natural_loops, single_def_value
+    ng = 0
+    for fn in F.functions(qname="dispenso::detail::SmallBufferAllocator::grabFromCentralStore"):
+        bufp = fn.params[0].get("vid") if fn.params else None
+        def is_buffers(x):
+            x = strip_casts(x)
+            return isinstance(x, dict) and x.get("k") == "var" and x.get("vid") == bufp
+        # loops that fill buffers[i] for i < K
+        fills = []
+        for h, body, tails in natural_loops(fn):
+            writes = [(p, e) for p, e in fn.events() if p.b in body and e.get("k") == "bin" and e.get("op") == "=" and isinstance(strip_casts(e.get("l")), dict)
+                      and strip_casts(e.get("l")).get("k") == "index" and is_buffers(strip_casts(e.get("l")).get("base"))]
+            if not writes:
+                continue
+            c = comparison_of((fn.term(h) or {}).get("cond"), True, lambda x: isinstance(strip_casts(x), dict) and strip_casts(x).get("k") == "var")
+            if c and c[0] == "<" and const_val(c[1]) is not None:
+                fills.append((h, const_val(c[1])))
+        for pos, ev in fn.events():
+            if ev.get("k") != "return":
+                continue
+            ng += 1
+            v = strip_casts(ev.get("e"))
+            src = v
+            if isinstance(v, dict) and v.get("k") == "var":
+                d = single_def_value(fn, v)
+                src = strip_casts(d) if d is not None else v
+            ok, det = False, "returns %s" % expr_str(v)
+            if isinstance(src, dict) and src.get("k") == "call" and src.get("name") in ("try_dequeue_bulk", "wait_dequeue_bulk") and src.get("args") and is_buffers(src["args"][0]):
+                ok, det = True, "returns the number of slots written by %s(buffers, ...)" % src.get("name")
+            elif const_val(v) is not None:
+                k = const_val(v)
+                dom = [K for h, K in fills if fn.dominates(Pos(h, 0), pos)]
+                if any(K >= k for K in dom):
+                    ok, det = True, "returns %s after a loop that fills buffers[0..%s)" % (k, max(dom))
+                else:
+                    det = "returns the constant %s on a path where at most %s slot(s) of buffers were provably filled: the slots above hold stale pointers to blocks that are still live" % (k, "the dequeued number of" if not dom else max(dom))
+            R.ob("C41.refill-count", fn, ev, ok, det, sitekey="return:%s" % ("dequeue" if (isinstance(src, dict) and src.get("k") == "call") else expr_str(v)),
+                 why="a block is never handed out again before it is deallocated: the refill count must not exceed the number of fresh pointers put into the cache")
+    R.need("C41.refill-count", ng, 2, "returns of grabFromCentralStore")
